@@ -56,7 +56,7 @@ class CheckC07(core.Check):
         parsed = parse_name_simple(name)
         c = Case("nf-%s-%d" % (name, seed), desc)
         res = (rnd.choice(["D", "D", "R", "DR"]), rnd.choice(["D", "D", "R", "DR"]))
-        h = faults.History(c, name, seed, "perw", res=res, rec=("r", "r"), twin=True, transport=rnd.choice(["tr", "tr", "sl"]))
+        h = faults.History(c, name, seed, "perw", res=res, rec=("r", "r"), twin=True, transport=rnd.choice(["tr", "tr", "sl", "mixA", "mixB"]))
         maxp = sessions.max_payloads(parsed)
         paylens = [min(m, rnd.choice([0, 1, 5, 16, 33, 100])) for m in maxp]
         plan, ma, mb = faults.random_fault_plan(parsed, paylens, rnd, nslots=rnd.choice([1, 1, 2, 3]), consecutive=rnd.choice([1, 2, 3]))
